@@ -104,12 +104,12 @@ def prune_cache(keep=10):
         shutil.rmtree(d, ignore_errors=True)
 
 
-def build_module(module, flags=(), san="plain", extra_sources=(), driver_src=None):
+def build_module(module, flags=(), san="plain", extra_sources=(), driver_src=None, wrap=True):
     """module: asn1gen.Module.  Returns GenBuild (cached by content)."""
     m = ensure_mirror()
     text = module.text()
     driver_src = driver_src or os.path.join(VERIF, "harness", "driver", "driver.c")
-    key = hashlib.sha256(json.dumps([m["stamp"], text, list(flags), san, SAN_FLAGS[san], open(driver_src).read(),
+    key = hashlib.sha256(json.dumps([m["stamp"], text, list(flags), san, SAN_FLAGS[san], wrap, open(driver_src).read(),
                                      [open(x).read() for x in extra_sources]]).encode()).hexdigest()[:20]
     d = os.path.join(SCRATCH, "gen", key)
     with locked("gen-" + key):
@@ -158,8 +158,8 @@ def build_module(module, flags=(), san="plain", extra_sources=(), driver_src=Non
                 res["err"] = "cc failed: %s\n%s" % (bad[0][0], bad[0][1][-2000:])
             else:
                 objs = [os.path.splitext(os.path.basename(s))[0] + ".o" for s in allsrc]
-                rr = sh(cc + lf + objs + ["-o", "driver", "-lm", "-lpthread",
-                                          "-Wl,--wrap=malloc,--wrap=calloc,--wrap=realloc,--wrap=free"], cwd=d)
+                rr = sh(cc + lf + objs + ["-o", "driver", "-lm", "-lpthread"] +
+                        (["-Wl,--wrap=malloc,--wrap=calloc,--wrap=realloc,--wrap=free"] if wrap else []), cwd=d)
                 if rr.returncode:
                     res["err"] = "link failed:\n" + rr.stdout[-2000:]
                 else:
@@ -256,11 +256,12 @@ def tlc_error_excerpt(out):
     return "\n".join(keep[-40:])
 
 
-def generate(spec_module, constants, invariants, workers=1, timeout=900, init="Init", next_="Next", extra_cfg=""):
+def generate(spec_module, constants, invariants, workers=1, timeout=900, init="Init", next_="Next", extra_cfg="", names=None):
     """Generator run: returns (module json, scenarios, stats)."""
-    cfg = "CONSTANTS\n  NameCodes <- TheNames\n" + "".join("  %s\n" % c for c in constants) + \
+    names = (spec_module in ("MC_Gen",)) if names is None else names
+    cfg = "CONSTANTS\n" + ("  NameCodes <- TheNames\n" if names else "") + "".join("  %s\n" % c for c in constants) + \
           "INIT %s\nNEXT %s\nINVARIANTS %s\nCHECK_DEADLOCK FALSE\n%s" % (init, next_, " ".join(invariants), extra_cfg)
-    rc, out, stats = run_tlc(spec_module, cfg, workers=workers, timeout=timeout)
+    rc, out, stats = run_tlc(spec_module, cfg, workers=workers, timeout=timeout, names=names)
     if rc != 0:
         raise Infra("generator TLC run failed (rc=%d):\n%s" % (rc, tlc_error_excerpt(out)))
     mods = tlc_payload(out, "MOD")
@@ -436,7 +437,8 @@ def judge(trace_module, mod_json, scns, events, constants=("Mod <- TheMod",), in
                     n += 1
         json.dump(mod_json, open(mp, "w"))
         jobs.append((k, sp, tp, mp, {v: kk for kk, v in idmap.items()}, n))
-    cfg = "CONSTANTS\n  NameCodes <- TheNames\n" + "".join("  %s\n" % c for c in constants) + "INIT TInit\nNEXT TNext\n" + \
+    names = trace_module in ("Trace_Codec",)
+    cfg = "CONSTANTS\n" + ("  NameCodes <- TheNames\n" if names else "") + "".join("  %s\n" % c for c in constants) + "INIT TInit\nNEXT TNext\n" + \
           ("INVARIANTS %s\n" % " ".join(invariants) if invariants else "") + \
           "POSTCONDITION TraceAccepted\nCHECK_DEADLOCK FALSE\n"
 
@@ -445,7 +447,7 @@ def judge(trace_module, mod_json, scns, events, constants=("Mod <- TheMod",), in
         if n == 0:
             return k, 0, "", {"states": 0, "distinct": 0, "depth": 1, "wall_s": 0}, back, n
         rc, out, st = run_tlc(trace_module, cfg, env={"VERIF_SCENARIOS": sp, "VERIF_TRACE": tp, "VERIF_MODULE": mp},
-                              workers=1, timeout=timeout, heap="6g")
+                              workers=1, timeout=timeout, heap="6g", names=names)
         return k, rc, out, st, back, n
     mism, tot = [], {"states": 0, "distinct": 0, "events": 0, "wall_s": 0.0}
     try:
